@@ -743,6 +743,9 @@ def v2_oracle(cfg, consts, max_states=200000):
             refs = list(e.labels)
         elif isinstance(e, (A.CatchPatternFailure, A.Break, A.Continue)) and e.label is not None:
             refs = [e.label]
+        if isinstance(e, (A.Break, A.Continue)) and e.label is None:
+            # a loop exit / loop head jump that refers to nothing (slide() silently skips it)
+            return {"kind": "loop-exit-without-target", "pos": i, "detail": cn.lower(), "element": cn}
         for l in refs:
             if l not in labels or not (0 <= labels[l] < n) or not isinstance(els[labels[l]], A.Label):
                 return {"kind": "undefined-label", "pos": i, "detail": strip_uid(l), "element": cn}
@@ -835,7 +838,7 @@ def v2_sig(cfg, prob):
             names += [strip_uid(x) for x in getattr(e, "labels", []) or []]
     construct = "other"
     joined = " ".join(names)
-    if kind in ("composite-left", "undefined-label", "merge-without-fork"):
+    if kind in ("composite-left", "undefined-label", "merge-without-fork", "loop-exit-without-target"):
         construct = re.sub(r"[^A-Za-z0-9_:]", "_", prob["detail"])[:40] or "x"
         construct = re.sub(r"_[a-z]_(\d+_)?label$", "_label", construct)
     elif "when_else_statement_label" in joined or "when_else_label" in joined:
@@ -918,7 +921,19 @@ def v2_gen_program(rng, st):
 
     def block(ind, depth, in_loop):
         pad = "  " * ind
-        for _ in range(rng.choice([1, 1, 2, 2, 3])):
+        n_st = rng.choice([1, 1, 2, 2, 3])
+        # inside a loop every block of every nested construct (if/elif/else, each when case, when-else,
+        # nested loop bodies) gets, with probability 1/3, a break/continue at a random statement
+        # position (also directly after a group statement)
+        jump_at = rng.randrange(n_st + 1) if in_loop and rng.random() < 0.34 else None
+        for j_ in range(n_st + 1):
+            if jump_at == j_:
+                w = rng.choice(["break", "continue"])
+                L.append(f"{pad}{w}")
+                st[w] += 1
+                st["jump_in_nested_block"] += 1 if ind > 2 else 0
+            if j_ == n_st:
+                break
             r = rng.random()
             if depth > 0 and r < 0.15:
                 L.append(f"{pad}if $v < {rng.randrange(3)}")
@@ -968,12 +983,10 @@ def v2_gen_program(rng, st):
                     st["activate"] += 1
                 elif k == 9:
                     L.append(f"{pad}$v = $v + 1")
-                elif k == 10 and in_loop:
-                    L.append(f"{pad}break")
-                    st["break"] += 1
-                elif k == 11 and in_loop:
-                    L.append(f"{pad}continue")
-                    st["continue"] += 1
+                elif k in (10, 11) and in_loop:
+                    w = rng.choice(["break", "continue"])
+                    L.append(f"{pad}{w}")
+                    st[w] += 1
                 elif k == 12:
                     L.append(f"{pad}lab{rng.randrange(3)}:")
                     L.append(f"{pad}send Lab()")      # a block of a single label is rejected by the parser
@@ -1004,9 +1017,17 @@ def v2_gen_fragment(rng, st):
         pad = "  " * ind
         out = []
         n = rng.choice([1, 1, 2, 2, 3])
-        for j in range(n):
+        jump_at = rng.randrange(n + 1) if in_loop and rng.random() < 0.34 else None
+        for j in range(n + 1):
+            if jump_at == j:
+                w = rng.choice(["break", "continue"])
+                L.append(f"{pad}{w}")
+                out.append((w,))
+                st["x_" + w] += 1
+            if j == n:
+                break
             r = rng.random()
-            if depth > 0 and r < 0.17 and not (is_else and j == 0):
+            if depth > 0 and r < 0.17 and not (is_else and j == 0 and jump_at != 0):
                 L.append(f"{pad}if $v < {rng.randrange(3)}")
                 th = block(ind + 1, depth - 1, in_loop)
                 el = []
@@ -1051,11 +1072,11 @@ def v2_gen_fragment(rng, st):
                     L.append(f"{pad}match " + " and ".join(rng.choice(EV) for _ in range(m)))
                     out.append(("matchand", m))
                     st["x_and"] += 1
-                elif k in (6, 7) and (in_loop or rng.random() < 0.15):
+                elif k in (6, 7) and in_loop:
                     L.append(f"{pad}break")
                     out.append(("break",))
                     st["x_break"] += 1
-                elif k == 8 and (in_loop or rng.random() < 0.15):
+                elif k == 8 and in_loop:
                     L.append(f"{pad}continue")
                     out.append(("continue",))
                     st["x_continue"] += 1
@@ -1389,7 +1410,7 @@ def run(tier, seed, replay=None):
 
     # ------------------------------------------------------------------ Colang 2.x
     st2 = {k: 0 for k in ("if", "while", "when", "orwhen", "when_else", "match", "await", "start", "activate",
-                          "break", "continue", "label", "group_and", "group_or",
+                          "break", "continue", "label", "group_and", "group_or", "jump_in_nested_block",
                           "x_if", "x_while", "x_when", "x_when_else", "x_or", "x_and", "x_break", "x_continue")}
     v2_sources = []   # (origin, src)
     given_events = {}
